@@ -2,6 +2,7 @@ SPECIFICATION Spec
 CONSTANTS
   OptToks <- Opt_Quick
   MaxOpts = 3
+  MinOpts = 0
   Ops <- AllOps
   Dev <- AsBuilt
 INVARIANTS Idempotent NilIsNeutral FamiliesAgree OptionsMeanWhatTheySay
